@@ -80,6 +80,14 @@ type caseSpec struct {
 	failKind string // code | eof | badid | trunc
 	badCreds string // how the broker reports bad credentials: code | challenge
 	refSrv   string // xdg | stdlib (SCRAM reference server)
+	addr     string // address to dial ("" = broker1:9092); a non-numeric port makes splitHostPortNumber fail
+}
+
+func (c caseSpec) address() string {
+	if c.addr == "" {
+		return "broker1:9092"
+	}
+	return c.addr
 }
 
 func (c caseSpec) String() string {
@@ -422,7 +430,7 @@ func runCase(c caseSpec) (res caseResult, skip string) {
 
 	if c.path == "dialer" {
 		d := &kafka.Dialer{DialFunc: dial, SASLMechanism: mech, ClientID: "c18"}
-		conn, err := d.DialContext(ctx, "tcp", "broker1:9092")
+		conn, err := d.DialContext(ctx, "tcp", c.address())
 		res.final = errClass(err)
 		if err == nil {
 			conn.SetDeadline(time.Now().Add(10 * time.Second))
@@ -444,7 +452,7 @@ func runCase(c caseSpec) (res caseResult, skip string) {
 	}
 
 	tr := &kafka.Transport{Dial: dial, SASL: mech, MetadataTTL: 24 * time.Hour, ClientID: "c18"}
-	addr := kafka.TCP("broker1:9092")
+	addr := kafka.TCP(c.address())
 	_, err := tr.RoundTrip(ctx, addr, &findcoordinator.Request{Key: "g"})
 	res.final = errClass(err)
 	if err == nil {
@@ -490,7 +498,11 @@ func emitCase(c caseSpec, res caseResult) {
 		if res.closed[i] {
 			cl = 1
 		}
-		fmt.Fprintf(out, "auth %s %d %s\t%s;%s;%d\n", c.path, sasl, env, journal, res.results[i], cl)
+		path := c.path
+		if c.addr != "" {
+			path += "!addr"
+		}
+		fmt.Fprintf(out, "auth %s %d %s\t%s;%s;%d\n", path, sasl, env, journal, res.results[i], cl)
 	}
 }
 
@@ -532,6 +544,12 @@ func main() {
 	cases = append(cases, caseSpec{path: "dialer", hs: hsChoices[0], mech: "none", mechFail: -1},
 		caseSpec{path: "transport", hs: hsChoices[0], mech: "none", mechFail: -1},
 		caseSpec{path: "transport", hs: hsChoices[0], mech: "none", mechFail: -1, failAt: "versions", failKind: "code"})
+	// the dialled address has a port that is not a number: host/port for sasl.Metadata cannot be computed
+	for _, a := range []string{"broker1:kafka", "broker1:"} {
+		for _, path := range []string{"dialer", "transport"} {
+			cases = append(cases, caseSpec{path: path, hs: hsChoices[0], mech: "plain", user: "u", pass: "p", srvUser: "u", srvPass: "p", mechFail: -1, addr: a})
+		}
+	}
 	_ = thorough
 	for _, c := range cases {
 		res, skip := runCase(c)
